@@ -350,7 +350,7 @@ Definition to_repo (g : graph) (fs : fsmap) (old_loose : list oid) (old_packs : 
 (* Prune (handler DeleteObject): one run of loose-object removals *)
 Definition op_prune (g : graph) (fs : fsmap) (old_loose : list oid) (lim : bool) : list mutation :=
   let r := to_repo g fs old_loose [] in
-  match walk_all (S (List.length g)) r with
+  match walk_all (gc_fuel r) r with
   | Err _ => []
   | Ok st =>
     match filter (fun o => negb (mem o st.(seen) || (lim && negb (mem o old_loose)))) (loose_ids fs) with
@@ -365,7 +365,7 @@ Definition pack_exts (fs : fsmap) (n : string) : list path :=
 (* RepackObjects (after the repair: the writer is closed before the loose copies go) *)
 Definition op_repack (g : graph) (fs : fsmap) (old_packs : list string) (lim : bool) : list mutation :=
   let r := to_repo g fs [] old_packs in
-  match walk_all (S (List.length g)) r with
+  match walk_all (gc_fuel r) r with
   | Err _ => []
   | Ok st =>
     let os := present st in
